@@ -22,6 +22,7 @@ struct Sched {
   double alpha;
   bool acc_work;
   std::vector<double> lsched;
+  long first = 0;         // step number of the first step of the simulation (the schedule counts from the step the restraint is created)
   bool periodic = false;  // the variable is a periodic distanceZ (period 4, values in [-2,2)): the moving centre crosses the boundary
 };
 static const double PERIOD = 4.0;
@@ -98,6 +99,8 @@ static Run do_run(Sched const &sc, int traj, std::vector<int> const &seg, int L,
   vproxy *px = new vproxy(2);
   px->keep_log = true;
   px->x[1] = cvm::rvector(TRAJ[traj][0], 0, 0);
+  long const F = sc.first;
+  if (F) px->colvars->set_initial_step(F);   // (as an engine does that is told to number its steps from F: known before the configuration is read)
   if (px->config(conf) != 0) { out.ok = false; out.err = px->errtxt; delete px; return out; }
   auto record = [&](long s) {
     Rec q;
@@ -116,13 +119,13 @@ static Run do_run(Sched const &sc, int traj, std::vector<int> const &seg, int L,
   };
   for (long s = 0; s < L; s++) {
     px->x[1] = cvm::rvector(TRAJ[traj][s], 0, 0);
-    if (px->step(s) != 0) { out.ok = false; out.err = px->errtxt; break; }
+    if (px->step(F + s) != 0) { out.ok = false; out.err = px->errtxt; break; }
     r.count("transitions");
     record(s);
     int b = (s >= 1 && s < L - 1) ? seg[s] : 0;
     if (b == 1) {
       px->end_run();
-      if (px->step(s) != 0) { out.ok = false; out.err = px->errtxt; break; }
+      if (px->step(F + s) != 0) { out.ok = false; out.err = px->errtxt; break; }
       r.count("transitions");
       record(s);
     } else if (b == 2) {
@@ -137,9 +140,9 @@ static Run do_run(Sched const &sc, int traj, std::vector<int> const &seg, int L,
       px->x[1] = cvm::rvector(TRAJ[traj][s], 0, 0);
       if (px->config(conf) != 0) { out.ok = false; out.err = px->errtxt; break; }
       if (binary) px->queue_state_binary(sb); else px->queue_state_text(st);
-      if (px->step(s) != 0) { out.ok = false; out.err = px->errtxt; break; }
+      if (px->step(F + s) != 0) { out.ok = false; out.err = px->errtxt; break; }
       r.count("transitions");
-      if (cvm::step_absolute() != s) { out.ok = false; out.err = "step number after restart is " + std::to_string(cvm::step_absolute()); break; }
+      if (cvm::step_absolute() != F + s) { out.ok = false; out.err = "step number after restart is " + std::to_string(cvm::step_absolute()); break; }
       record(s);
     }
   }
@@ -170,6 +173,10 @@ int main(int argc, char **argv)
       {"k-staged", K_STAGED, 2, 2, 0, 1.0, false, {}},
       {"k-staged-equil1-exp2", K_STAGED, 3, 2, 1, 2.0, false, {}},
       {"k-staged-run-continues-after-last-stage", K_STAGED, 1, 2, 0, 1.0, false, {}},
+      {"k-staged-equil1-simulation-starting-at-step-5", K_STAGED, 3, 2, 1, 1.0, false, {}, 5},
+      {"k-staged-equil1-simulation-starting-at-step-7", K_STAGED, 3, 2, 1, 1.0, false, {}, 7},
+      {"k-lambdaSchedule-equil2-simulation-starting-at-step-5", K_SCHED, 4, 1, 2, 1.0, false, {0.0, 1.0}, 5},
+      {"centers-continuous-simulation-starting-at-step-7", C_CONT, 4, 0, 0, 1.0, true, {}, 7},
       {"k-lambdaSchedule", K_SCHED, 2, 2, 0, 1.0, false, {0.0, 0.3, 1.0}},
       {"k-lambdaSchedule-exp3-nonzero-start", K_SCHED, 2, 2, 0, 3.0, false, {0.2, 0.5, 1.0}},
       {"decoupling-continuous", D_CONT, 4, 0, 0, 2.0, true, {}},
